@@ -48,13 +48,17 @@ func c16GenRW(r *verifh.Rng) []verifh.Section {
 			case 5:
 				next = t0 + (cur+1)*iv + 1
 			case 6:
-				next = t0 + (cur+r.Pick(size-1, size, size+1))*iv + r.Pick(-1, 0, 1)
+				if r.Chance(1, 2) {
+					next = t0 + (cur+r.Pick(size-1, size, size+1))*iv + r.Pick(-1, 0, 1)
+				} else {
+					next = now + r.Intn(iv)
+				}
 			case 7:
 				next = now + r.Range(1, size+1)*iv
 			case 8:
-				next = t0 + (cur+r.Range(1, 2*size+1))*iv + r.Pick(-1, 0, 0, 1, r.Intn(iv))
+				next = t0 + (cur+r.Range(1, size))*iv + r.Pick(-1, 0, 0, 1, r.Intn(iv))
 			default:
-				if r.Chance(1, 4) {
+				if r.Chance(1, 6) {
 					next = now + r.Range(size, 20*size)*iv + r.Intn(iv)
 				} else {
 					next = now + r.Intn(2*iv)
